@@ -68,6 +68,15 @@ NEEDS = {
  'C12-g': 'branch-free removed test on the two stamps written with XOR instead of OR: an insert whose two arguments are BOTH removed (two different removed nodes) is accepted (release) or panics after writing a link (debug)',
  'C13-g': 'with_capacity clamps the eager allocation to 4096 nodes: with_capacity(n).capacity() < n for n > 4096',
  'C17-g': 'Display for NodeId goes through Formatter::pad(&index1.to_string()) only with feature std: width / precision in the format spec are honoured with std and ignored without',
+ 'C01-h': 'checked_insert_after fast path for moving a node down by one place (new_sibling is the previous sibling of self) swaps the sibling links in place and forgets the parent\'s first_child when new_sibling was the first child',
+ 'C03-h': 'append_value through a hand-rolled fast path on Arena::get_pair_mut (split_at_mut): the else branch returns the two references swapped, so when the recycled slot lies BEFORE the parent\'s slot parent and child are exchanged (debug: assertion panic, release: corrupted links)',
+ 'C04-h': 'remove rewritten as an in-place splice; parent.first_child = next_sibling.or(first_child) has its operands swapped: removing a FIRST child that has children and a next sibling makes the parent skip the spliced-in children',
+ 'C05-h': 'the loop check of checked_insert_after / checked_insert_before walks parent.predecessors() instead of ancestors(): inserting an earlier sibling of an ancestor (an "uncle") next to a node is refused with an ancestor error that does not apply; the unchecked forms panic',
+ 'C07-h': 'remove_subtree clears a freed node through a helper that rebuilds it with NextFree(None): the free-list link written when the descendants were freed is cut, slots are lost and the arena grows although removed slots exist',
+ 'C08-h': 'remove_subtree unhooks the subtree root inline; the case "last child with a previous sibling" forgets the sibling\'s next link: after the slot is recycled, removing the old parent\'s subtree follows the stale link and frees (drops) the unrelated new node',
+ 'C10-h': 'double-ended iterators keep a 64-bit mask of yielded nodes indexed by slot number modulo 64 per end: two siblings whose slots differ by a multiple of 64 (arena of >= 66 slots) make a mixed next()/next_back() sequence stop early',
+ 'C11-h': 'NodeId::from_index0 builds an id with generation 0; used in get_node_id: for a live node in a recycled slot get_node_id returns an id with the right position and stamp 0',
+ 'C14-h': 'two sites in IndentWriter: an incrementally tracked count of blank ancestor levels that can undercount after returning from a non-last item, and a dropped continuation-line case: a multi-line last child below a last-child chain of depth 3 (six nodes) is printed one column too far left',
  'C14-b': 'write_str fast path for fragments arriving mid-line tests ends_with(newline) instead of contains: a later chunk with an interior newline loses guides and alignment',
 }
 rows = {}
